@@ -33,6 +33,7 @@ from bits import BV, Evaluator
 from facts import short
 from mir import body_of, op_const
 from report import site_of
+from panicfree import fn_short
 
 HERE = os.path.dirname(os.path.dirname(os.path.dirname(os.path.abspath(__file__))))
 SPEC = json.load(open(os.path.join(HERE, "spec", "layouts.json")))["boxes"]
@@ -310,6 +311,7 @@ def run(fx, chk, tier):
     chk.floor("R6", "size-word obligations", n6, 90)
     # ---------------- R7: the 64-bit size-header form decodes like the compact one (instances owned by C12)
     from packs_common import compose
+    r8(fx, chk)
     chk.rule("R7", "a box whose header uses the 64-bit size form decodes identically: header constants and every advance past a child are based on the position after its header (C12 R4/R5 instances)")
     compose(fx, chk, tier, "R7", "C12", ["R4", "R5"], floor=25, what="64-bit header obligations")
     return chk.finish(
@@ -634,6 +636,102 @@ def header_read_form(fx, fn):
 
 
 # ------------------------------------------------------------------------------------------------
+def _pos_defs(body, l, depth=0, seen=None):
+    """definition sites (blocks) of local `l` when every value it can hold is the result of `stream_position()?`; None otherwise"""
+    from mir import op_place, strip_generics
+    if seen is None:
+        seen = set()
+    if l in seen or depth > 6:
+        return set()
+    seen.add(l)
+    ds = body.defs().get(l, [])
+    if not ds:
+        return None
+    out = set()
+    for b, i, kind, payload in ds:
+        if kind == "call":
+            if strip_generics(payload["callee"].get("path") or "") == "std::io::Seek::stream_position":
+                out.add(b)
+                continue
+            if (payload["callee"].get("path") or "").endswith("Try::branch") and payload["args"]:
+                pl = op_place(payload["args"][0])
+                r = _pos_defs(body, pl["l"], depth + 1, seen) if pl is not None and not pl["p"] else None
+                if r is None:
+                    return None
+                out |= r
+                continue
+            return None
+        if kind != "assign" or payload["k"] != "use":
+            return None
+        pl = op_place(payload["a"])
+        if pl is None:
+            return None
+        proj = pl["p"]
+        if proj and not (len(proj) == 2 and isinstance(proj[0], dict) and proj[0].get("downcast") in ("Continue", "Ok") and isinstance(proj[1], dict) and proj[1].get("f") == "0"):
+            return None
+        r = _pos_defs(body, pl["l"], depth + 1, seen)
+        if r is None:
+            return None
+        out |= r | {b}
+    return out
+
+
+def r8(fx, chk):
+    """padded descriptor lengths: the header of a descriptor is 1 tag byte plus 1..4 length bytes, and the decoder's header
+    reader returns only (tag, payload size), so how many bytes a child occupied is known only from the stream position.  Every
+    loop over descriptor children must therefore be delimited by a cursor that holds nothing but stream positions and is
+    re-read after the child in every iteration."""
+    import loops as LP
+    from mir import body_of, callee_path, op_place
+    chk.rule("R8", "loops over descriptor children are delimited by the stream position re-read after each child (the length prefix may be padded: its size is not derivable from the payload size)")
+    rd = [f for f in fx.fns.values() if f["name"] == "read_desc" and f["kind"] == "Fn"]
+    if not rd:
+        return
+    hid = rd[0]["id"]
+    nloops = 0
+    for fid, fn in sorted(fx.fns.items()):
+        body = body_of(fn)
+        if body is None or fid == hid:
+            continue
+        hblocks = [b for b, t in body.calls() if callee_path(t["callee"]) == hid]
+        if not hblocks:
+            continue
+        ls = LP.inventory(fx, fid)
+        for H in hblocks:
+            inl = [L for L in ls if H in L.blocks]
+            if not inl:
+                continue
+            L = min(inl, key=lambda x: len(x.blocks))
+            nloops += 1
+            key = "%s|children" % fn_short(fid)
+            site = site_of(fn, L.line)
+            good, why = False, "the loop has no exit that compares a cursor with the parent's end"
+            for b in sorted(L.blocks):
+                t = body.term(b)
+                if t["k"] != "switch" or all(x in L.blocks for x in [tt[1] for tt in t["targets"]] + [t["otherwise"]]):
+                    continue
+                dl = op_place(t["discr"])
+                d = body.single_def(dl["l"]) if dl is not None and not dl["p"] else None
+                if d is None or d[2] != "assign" or d[3]["k"] != "bin" or d[3].get("op") not in ("Lt", "Le", "Gt", "Ge", "Ne", "Eq"):
+                    continue
+                for side in ("a", "b"):
+                    pl = op_place(d[3][side])
+                    if pl is None or pl["p"]:
+                        continue
+                    defs = _pos_defs(body, pl["l"])
+                    if defs is None:
+                        why = "the exit test compares `%s`, which does not only hold stream positions" % (body.local_name(pl["l"]) or body.place_str(pl))
+                        continue
+                    refresh = [x for x in defs if x in L.blocks and body.can_reach(H, x) and all(body.dominates(x, la) or x == la for la in L.latches)]
+                    if refresh:
+                        good = True
+                    else:
+                        why = "the cursor is not re-read from the stream after the child in every iteration"
+            chk.require(good, "R8", key, "exit test on a cursor re-read from stream_position() after each child",
+                        "a padded descriptor length desynchronises this loop: %s" % why, site)
+    chk.floor("R8", "loops over descriptor children", nloops, 2)
+
+
 def r4(fx, chk):
     hw = [f for f in fx.fns.values() if f["id"].endswith("BoxHeader::write")]
     if chk.anchor("R4", "BoxHeader::write", hw):
